@@ -45,6 +45,15 @@ inline StatTol stat_tol(const DType & dt, const WinStats & w, int levels, double
     double sigma = sqrt((double) w.var);
     StatTol t;
     t.mean = tau;
-    t.std_abs = 4.0 * sqrt(tau * A) + 1e-9 * sigma + tau;
+    // Standard deviation.  Every stored mean carries an absolute error <= tau; the between-entry term
+    // sum((mean_i - mean)^2) sees deviations of at most R = max - min of the window, so the variance is off by at most
+    // 2*R*tau + tau^2, plus the relative rounding of the stored std values (2u per level).  A bound in terms of R (not of
+    // A = max|x|) matters for streams with a large offset and a small spread: there a cancelling one-pass variance
+    // (E[x^2] - mean^2) is wrong by orders of magnitude although it is "small relative to A".
+    double R = (w.nfinite > 0) ? (w.mx - w.mn) : 0.0;
+    double dvar = 2.0 * (levels + 2) * 2.0 * u * (double) w.var + 2.0 * R * tau + tau * tau;
+    double dstd = sqrt(dvar);
+    if (sigma > 0 && dvar / (2.0 * sigma) < dstd) dstd = dvar / (2.0 * sigma);
+    t.std_abs = 4.0 * dstd + 1e-9 * sigma + tau;
     return t;
 }
